@@ -58,7 +58,22 @@ func c05FirstDiff(a, b mon.Snap) []string {
 
 func c05Case(c *mon.Ctx, i int, record bool) {
 	g := lint.GlobalRegistry()
-	o, desc, isSeed := unionCase(c, i, &c05Mut)
+	var o *mon.Obj
+	var desc string
+	var isSeed bool
+	if nU := len(W.Objs) + c.Pick(12000, 400000); i >= nU {
+		// directed families, sampled from the end so the SAN-sibling family is always complete
+		k := directedCount(c) - 1 - (i-nU)*c.Pick(6, 1)
+		if nSib := len(sanSeeds) * 2; i-nU < nSib {
+			k = directedCount(c) - 1 - (i - nU)
+		}
+		if k < 0 {
+			return
+		}
+		o, desc = directedCase(c, k)
+	} else {
+		o, desc, isSeed = unionCase(c, i, &c05Mut)
+	}
 	if o == nil {
 		return
 	}
@@ -194,7 +209,7 @@ func init() {
 			nSeeds = len(W.Objs)
 			return nil
 		},
-		Cases:   func(c *mon.Ctx) int { return nSeeds + c.Pick(12000, 400000) },
+		Cases:   func(c *mon.Ctx) int { return nSeeds + c.Pick(12000, 400000) + directedCount(c)/c.Pick(6, 1) },
 		RunCase: func(c *mon.Ctx, i int) { c05Case(c, i, c.Only >= 0 || i%c05FreshEvery == 0) },
 		Aux: map[string]func(c *mon.Ctx){"io": c05IOAux},
 		Finish: func(c *mon.Ctx, r *mon.Report, ev *mon.Evidence) []string {
